@@ -31,6 +31,7 @@
 // Pred (the property evaluated directly on the implementation, with the harness' own reading of the definition as the
 // specification): classes pos-named-differ, inithash-roundtrip, get-wrong, get-constant, equality-wrong,
 // equality-include-type, subtype-not-instance, ancestor-instance-of-sub, schema-admitted-rejected, new-rejected,
+// type-hash-key (the distinct types of an op are distinct keys of a Hash),
 // renderings-differ, reinit-differs (the types re-created from their own InitHash() behave differently; the known finding
 // C17-type-inithash-constant-undef has its own class reinit-constant-undef, ranked last), fault.
 //
@@ -1219,6 +1220,26 @@ func (r *run) predicate(c px.Context, s *spec, acts []action, hashes []*types.Ha
 	if !allWf {
 		return fs // accepted although the specification calls it malformed: outside the quantifier (model still compared)
 	}
+	// distinct types are distinct hash keys (and a type finds itself): a Hash keyed by the types of the op
+	if cls := safely(func() {
+		es := make([]*types.HashEntry, len(r.types))
+		for i, t := range r.types {
+			es[i] = types.WrapHashEntry(t, types.WrapInteger(int64(i)))
+		}
+		h := types.WrapHash(es)
+		for i, t := range r.types {
+			for j := 0; j < i; j++ {
+				if px.ToKey(t) == px.ToKey(r.types[j]) {
+					add("type-hash-key", "the distinct types T%d and T%d have the same hash key", j, i)
+				}
+			}
+			if v, ok := h.Get(t); !ok || !v.Equals(types.WrapInteger(int64(i)), nil) {
+				add("type-hash-key", "a Hash keyed by the types of the op answers %v for T%d", v, i)
+			}
+		}
+	}); cls != "" {
+		add("fault", "a Hash keyed by the types of the op: %s", cls)
+	}
 	// the creating action of every object slot
 	var creators []*action
 	for i := range acts {
@@ -1462,6 +1483,12 @@ func exec(c px.Context, op string, args []sx.Sexp) core.Result {
 	if op == "goobj" {
 		return execGoObj(c, args)
 	}
+	if op == "ifacex" {
+		return execIfaceX(c, args)
+	}
+	if op == "fnover" {
+		return execFnOver(c, args)
+	}
 	deco := op == "objd"
 	if deco {
 		op = "obj"
@@ -1570,7 +1597,7 @@ func exec(c px.Context, op string, args []sx.Sexp) core.Result {
 // one class is reported per op: the most specific first
 func classRank(c string) int {
 	for i, k := range []string{"fault", "schema-admitted-rejected", "renderings-differ", "reinit-differs", "new-rejected", "get-wrong", "get-constant", "pos-named-differ",
-		"inithash-roundtrip", "equality-wrong", "equality-include-type", "subtype-not-instance", "ancestor-instance-of-sub", "unrelated-instance", "message-args", "reinit-constant-undef"} {
+		"inithash-roundtrip", "equality-wrong", "equality-include-type", "subtype-not-instance", "ancestor-instance-of-sub", "unrelated-instance", "type-hash-key", "message-args", "reinit-constant-undef"} {
 		if c == k {
 			return i
 		}
